@@ -47,6 +47,7 @@ type Step struct {
 	Trig    []string `json:"trig"`
 	Rg      string   `json:"rg"`
 	Amt     int64    `json:"amt"`
+	Ans     int    `json:"ans"` // recharge: status the consumer's notification endpoint answers with (0 = 204)
 	Pad     int      `json:"pad"`
 	Chid    int32    `json:"chid"`
 	Tz      *int     `json:"tz"` // seconds east of UTC to install as time.Local before the step
@@ -173,6 +174,8 @@ func (d *SeqDriver) runOne(b *Behaviour) {
 			res["status"] = 0
 		case "recharge":
 			args["rg"] = st.Rg
+			args["ans"] = st.Ans
+			env.SetSinkStatus(st.Ans)
 			path := "/nchf-convergedcharging/v3/recharging/" + d.supi(st.U) + "_" + st.Rg
 			r := env.Do("PUT", path, nil, nil, 20*time.Second)
 			res = httpRes(r)
